@@ -618,3 +618,129 @@ def monotone_rule(ctx, rep, rid="MONO"):
                 rep.ok(rid, "%s: update of `%s` carries no size guard of another table" % (b.name, ",".join(sorted(tabs))))
     rep.count("table updates examined", n)
     rep.floor(rid, 20, "table updates in the semantic pass")
+
+
+# ------------------------------------------------------------------------------------------------
+# L-FMTCHK (C18, check-mode clause): `llw -f -c` answers "unchanged" exactly when `llw -f` would write back the bytes it read
+# ------------------------------------------------------------------------------------------------
+_TRANSPARENT = re.compile(r"(Deref>::deref|AsRef<[^>]*>>::as_ref|::as_str|Borrow<[^>]*>>::borrow|String::as_bytes|str::as_bytes)$")
+
+
+def _strip(e):
+    while True:
+        if e[0] == "call" and _TRANSPARENT.search(e[1]) and len(e[2]) == 1:
+            e = e[2][0]
+        elif e[0] in ("cast",):
+            e = e[2]
+        else:
+            return e
+
+
+def _is_src(e, param):
+    """the text read from the input file: `read_to_string(<param>)?`"""
+    e = _strip(e)
+    for x in walk(e):
+        if x[0] == "call" and x[1].endswith("fs::read_to_string") and x[2] and _strip(x[2][0]) == param:
+            break
+    else:
+        return False
+    # nothing but Try::branch / Continue projections / unwrap between the read and the use
+    y = e
+    while True:
+        if y[0] in ("field", "variant"):
+            y = y[1]
+        elif y[0] == "call" and (y[1].endswith("Try>::branch") or re.search(r"Result(<T, E>)?::(unwrap|expect)$", y[1])):
+            y = y[2][0]
+        else:
+            break
+    return y[0] == "call" and y[1].endswith("fs::read_to_string")
+
+
+def fmtcheck_rule(ctx, rep, rid="FMTCHK"):
+    rep.rule(rid, "PROV/DOM: in the function that calls backend::format::format for the command line (lelwel::compile): (1) the formatter's input "
+                  "is the tree parsed from the text `read_to_string(input)` returned; (2) on the edge `check == true` the function returns "
+                  "Ok(text == formatted) with exactly these two values and writes nothing; (3) on the edge `check == false` it passes exactly "
+                  "`formatted` to fs::write on the same path parameter that was read.  Hence check mode answers 'no difference' exactly when "
+                  "format mode would leave the file's bytes unchanged")
+    lib = ctx.lelwel()
+    homes = []
+    for b in user_bodies(lib):
+        if b.name.startswith("backend::format::") or b.name.startswith("ide"):
+            continue
+        for pt, name, decl, args, t in calls(b):
+            if name.endswith("backend::format::format"):
+                homes.append((b, pt, args))
+    if len(homes) != 1:
+        raise MissingAnchor("expected one command-line call site of backend::format::format, found %d" % len(homes))
+    b, fpt, fargs = homes[0]
+    pr = P(b)
+    fmt_expr = None
+    for pt, name, decl, args, t in calls(b):
+        if pt == fpt:
+            fmt_expr = pr.call_expr(t)
+    reads = [(pt, args) for pt, name, decl, args, t in calls(b) if name.endswith("fs::read_to_string")]
+    if len(reads) != 1 or _strip(reads[0][1][0])[0] != "param":
+        raise MissingAnchor("%s: expected one read_to_string(<path parameter>)" % b.name)
+    param = _strip(reads[0][1][0])
+
+    def is_fmt(e):
+        return _strip(e) == fmt_expr
+
+    # (1) the formatted tree is parsed from the text that was read
+    srcs = [x for x in walk(fargs[0]) if x[0] == "call" and x[1].endswith("Parser::new") and x[2] and _is_src(x[2][0], param)]
+    parsed = any(x[0] == "call" and x[1].endswith("Parser::parse") for x in walk(fargs[0]))
+    if srcs and parsed:
+        rep.ok(rid, "%s: format() receives Parser::new(read_to_string(%s)?).parse()" % (b.name, param[2]))
+    else:
+        rep.violation(rid, "%s|format-input" % b.name, "%s: the tree handed to backend::format::format is not the parse of the text read from `%s` (%s)"
+                      % (b.name, param[2], show(fargs[0], 200)), site(b, fpt))
+    # (2) check-mode return
+    n_ret = 0
+    for bi, blk in enumerate(b.blocks):
+        if bi not in b.reachable():
+            continue
+        for i, s in enumerate(blk["s"]):
+            if not ("rv" in s and s["a"]["l"] == 0 and not s["a"]["p"]):
+                continue
+            g = gates(b, bi)
+            if not (has_param(g, "_format", True) or has_param(g, "format", True)):
+                continue
+            e = pr.rvalue(s["rv"])
+            if not (e[0] == "agg" and e[1][-1] == "Ok" and len(e[2]) == 1):
+                continue
+            v = e[2][0]
+            if has_param(g, "check", True):
+                n_ret += 1
+                neg = False
+                while v[0] == "un" and v[1] == "Not":
+                    neg = not neg
+                    v = v[2]
+                ok = False
+                if v[0] == "call" and len(v[2]) == 2 and re.search(r"PartialEq(<[^>]*>)?>?::(eq|ne)$", v[1]):
+                    is_ne = v[1].endswith("::ne")
+                    a, c = v[2]
+                    pair = (_is_src(a, param) and is_fmt(c)) or (_is_src(c, param) and is_fmt(a))
+                    ok = pair and (neg == is_ne)
+                if ok:
+                    rep.ok(rid, "%s: check mode returns Ok(text == formatted)" % b.name)
+                else:
+                    rep.violation(rid, "%s|check-return" % b.name, "%s: in format + check mode the function returns `%s`, which is not the comparison of the "
+                                  "text read from the file with the formatter's result" % (b.name, show(e, 300)), site(b, (bi, i)))
+    if n_ret == 0:
+        rep.violation(rid, "%s|check-return-missing" % b.name, "%s: no return of Ok(..) on the edge `_format && check`" % b.name, site(b, fpt))
+    # (3) write-mode: the only write behind `_format` passes the formatted text to the path that was read, on the edge !check
+    n_w = 0
+    for pt, name, decl, args, t in calls(b):
+        if not FS_MUTATORS.search(name):
+            continue
+        g = gates(b, pt[0])
+        if not (has_param(g, "_format", True) or has_param(g, "format", True)):
+            continue
+        n_w += 1
+        if name.endswith("fs::write") and _strip(args[0]) == param and is_fmt(args[1]) and has_param(g, "check", False):
+            rep.ok(rid, "%s: format mode writes exactly the formatter's result to `%s` (edge !check)" % (b.name, param[2]))
+        else:
+            rep.violation(rid, "%s|format-write" % b.name, "%s: the write in format mode is not `fs::write(%s, formatted)` on the edge `!check` (%s(%s))"
+                          % (b.name, param[2], name, ", ".join(show(a, 80) for a in args)), site(b, pt))
+    if n_w == 0:
+        rep.violation(rid, "%s|format-write-missing" % b.name, "%s: format mode writes nothing" % b.name, site(b, fpt))
